@@ -43,6 +43,7 @@ namespace {
     };
 
     // every object 1..max as "i:<unparse>" ; streams as "i:S<dict>#<hex data>"
+    std::string dump_problems;   // 'g' = stream data could not be produced, 'o' = anything else
     std::string dump(QPDF& q) {
         std::string out;
         size_t n = q.getObjectCount();
@@ -59,7 +60,10 @@ namespace {
                 } else {
                     out += oh.unparseResolved();
                 }
-            } catch (std::exception const& e) { out += std::string("!") + e.what(); }
+            } catch (std::exception const& e) {
+                out += "!";
+                dump_problems += std::string(e.what()).find("error getting raw stream data") != std::string::npos ? "g" : "o";
+            }
             out += "\n";
         }
         return out;
@@ -99,7 +103,8 @@ namespace {
         return out;
     }
 
-    // id^marker of every dictionary object that has an integer /Mk (for the list specification)
+    // id^marker^kind of every dictionary object (marker = integer /Mk or ?, kind P = /Pages node or has /Kids,
+    // C = catalog, n = other) - what the list specification needs to know about an operand
     std::string markers(QPDF& q) {
         std::string out;
         size_t n = q.getObjectCount();
@@ -107,7 +112,11 @@ namespace {
             auto oh = q.getObject(static_cast<int>(i), 0);
             if (oh.isDictionary()) {
                 auto mk = oh.getKey("/Mk");
-                if (mk.isInteger()) out += std::to_string(i) + "^" + std::to_string(mk.getIntValue()) + ",";
+                auto ty = oh.getKey("/Type");
+                bool isP = oh.hasKey("/Kids") || (ty.isName() && ty.getName() == "/Pages");
+                bool isC = ty.isName() && ty.getName() == "/Catalog";
+                out += std::to_string(i) + "^" + (mk.isInteger() ? std::to_string(mk.getIntValue()) : std::string("?")) + "^" +
+                    (isP ? "P" : (isC ? "C" : "n")) + ",";
             }
         }
         return out;
@@ -146,6 +155,50 @@ namespace {
 
     QPDFObjectHandle handle(Docs& D, int d, int i) { return D.q[d]->getObject(i, 0); }
 
+    // indirect leaves of the raw tree (no cache access), in document order
+    void leaves(QPDFObjectHandle node, int depth, std::set<int>& seen, std::vector<int>& out) {
+        if (depth > 40 || !node.isDictionary()) return;
+        if (node.isIndirect() && !seen.insert(node.getObjectID()).second) return;
+        auto kids = node.getKey("/Kids");
+        if (!kids.isArray()) return;
+        int n = kids.getArrayNItems();
+        for (int i = 0; i < n; ++i) {
+            auto kid = kids.getArrayItem(i);
+            if (kid.isDictionary() && kid.hasKey("/Kids")) { leaves(kid, depth + 1, seen, out); continue; }
+            if (kid.isIndirect()) out.push_back(kid.getObjectID());
+        }
+    }
+
+    // symbolic object references, resolved against the CURRENT state of document d without touching
+    // the page cache:  @l<k> = k-th (mod n) leaf of the raw tree, @o<k> = object (k mod count)+1,
+    // @n<k> = count - (k mod 4) (recently created objects).  The concrete op is printed as o=...
+    std::string resolve(Docs& D, int d, std::string const& tok) {
+        if (tok.empty() || tok[0] != '@') return tok;
+        QPDF& q = *D.q[d];
+        int k = std::stoi(tok.substr(2));
+        int count = static_cast<int>(q.getObjectCount());
+        if (tok[1] == 'l') {
+            std::vector<int> lv; std::set<int> seen;
+            try { leaves(q.getTrailer().getKey("/Root").getKey("/Pages"), 0, seen, lv); } catch (std::exception&) {}
+            if (lv.empty()) return "3";
+            return std::to_string(lv[static_cast<size_t>(k) % lv.size()]);
+        }
+        if (tok[1] == 'o') return std::to_string(count > 0 ? (k % count) + 1 : 1);
+        if (tok[1] == 'n') { int v = count - (k % 4); return std::to_string(v >= 1 ? v : 1); }
+        return tok;
+    }
+
+    // which field holds the document that owns the id in field i (per op kind)
+    std::vector<std::string> concretize(Docs& D, std::vector<std::string> f) {
+        std::string const& op = f.at(0);
+        auto fix = [&](size_t docf, size_t idf) { if (f.size() > idf && f.size() > docf) f[idf] = resolve(D, std::stoi(f[docf]), f[idf]); };
+        if (op == "ap" || op == "hp" || op == "rm" || op == "hr" || op == "cf") fix(2, 3);
+        else if (op == "aa" || op == "ha") { fix(2, 3); fix(5, 6); }
+        else if (op == "sc" || op == "fp" || op == "rp") fix(1, 2);
+        else if (op == "sw") { fix(1, 2); fix(1, 3); }
+        return f;
+    }
+
     std::string do_op(Docs& D, std::vector<std::string> const& f) {
         auto I = [&](size_t k) { return std::stoi(f.at(k)); };
         std::string const& op = f.at(0);
@@ -176,7 +229,7 @@ namespace {
         if (op == "sw") { q.swapObjects(I(2), 0, I(3), 0); return "ok"; }
         if (op == "uc") { q.updateAllPagesCache(); return "ok"; }
         if (op == "pi") { q.pushInheritedAttributesToPage(); return "ok"; }
-        if (op == "gp") { return "ok:" + pagelist(q); }
+        if (op == "gp") { (void)q.getAllPages(); return "ok:" + pagelist(q); }
         if (op == "fp") { return "ok:" + std::to_string(q.findPage(QPDFObjGen(I(2), 0))); }
         if (op == "mi") {   // makeIndirectObject of a parsed direct object
             auto r = q.makeIndirectObject(QPDFObjectHandle::parse(&q, unhex(f.at(2)))); return "ok:" + std::to_string(r.getObjectID());
@@ -227,13 +280,18 @@ static Reg r_pgrun("pgrun", [](std::vector<std::string> const& a) -> std::string
         D.q[d]->processMemoryFile(d == 0 ? "A" : "B", D.data[d].data(), D.data[d].size());
     }
     std::string out;
+    // the observations that can perturb the state (getAllPages / findPage) come first; tree, markers and
+    // hash show the state after them, which is the pre-state of the next operation
     auto observe = [&](std::string const& res) {
-        out += "r=" + res + " t=" + tree(*D.q[0]) + "/" + tree(*D.q[1]);
-        out += " k=" + markers(*D.q[0]) + "/" + markers(*D.q[1]);
-        if (verbose) out += " d=" + hex(dump(*D.q[0])) + "/" + hex(dump(*D.q[1]));
-        else out += " h=" + std::to_string(fnv(dump(*D.q[0]))) + "/" + std::to_string(fnv(dump(*D.q[1])));
+        out += "r=" + res;
         if (obs >= 1) out += " p=" + pagelist(*D.q[0]) + "/" + pagelist(*D.q[1]);
         if (obs >= 2) out += " f=" + findall(*D.q[0]) + "/" + findall(*D.q[1]);
+        out += " t=" + tree(*D.q[0]) + "/" + tree(*D.q[1]);
+        out += " k=" + markers(*D.q[0]) + "/" + markers(*D.q[1]);
+        dump_problems.clear();
+        if (verbose) out += " d=" + hex(dump(*D.q[0])) + "/" + hex(dump(*D.q[1]));
+        else out += " h=" + std::to_string(fnv(dump(*D.q[0]))) + "/" + std::to_string(fnv(dump(*D.q[1])));
+        if (!dump_problems.empty()) out += " x=" + dump_problems;
         out += "|";
     };
     observe("init");
@@ -242,8 +300,13 @@ static Reg r_pgrun("pgrun", [](std::vector<std::string> const& a) -> std::string
         for (auto const& o: split(opstr, ';')) {
             if (o.empty()) continue;
             std::string res;
-            try { res = do_op(D, split(o, ',')); }
-            catch (std::exception const& e) { res = errclass(e) + (verbose ? std::string(":") + hex(e.what()) : std::string()); }
+            std::vector<std::string> f;
+            try { f = concretize(D, split(o, ',')); } catch (std::exception const&) { f = split(o, ','); }
+            std::string conc;
+            for (size_t i = 0; i < f.size(); ++i) conc += (i ? "," : "") + f[i];
+            out += "o=" + conc + " ";
+            try { res = do_op(D, f); }
+            catch (std::exception const& e) { res = errclass(e); if (verbose) out += "e=" + hex(e.what()) + " "; }
             observe(res);
         }
     }
